@@ -568,8 +568,10 @@ def reuse_rules(ctx, repo, prop, runner, start_relpaths, my_rule, label, why, se
 def splitter_contract(ctx, repo):
     """C07 assumes of ``cv.split(y)`` exactly what C01 decides (window/test arithmetic, feasibility guards, cutoffs)."""
     from . import c01 as _c01
+    # R5 of C01 is about temporal_train_test_split / _split_by_fh, which evaluate() does not use
     reuse_rules(ctx, repo, "C01", _c01.run, ["sktime/forecasting/model_selection/_split.py"], "R3", "splitter-contract",
-                "evaluate() takes one row per (train, test) pair of cv.split(y) as that split's windows; the splitter breaks it")
+                "evaluate() takes one row per (train, test) pair of cv.split(y) as that split's windows; the splitter breaks it",
+                select=lambda r_: r_["rule"] != "R5")
 
 
 def _callee_closure(repo, module, fdefs, prefix):
@@ -1263,6 +1265,8 @@ def check_cv_validator(ctx, repo):
         raise AnalysisError("anchor changed: check_cv has no parameter enforce_start_with_window")
     isinst = [x.term for x in r.events if x.kind == "call" and x.callee == fn("builtins.isinstance") and x.args[:1] == [cv]]
     hasat = call(fn("builtins.hasattr"), [cv, C("start_with_window")])
+    getattrs3 = [x.term for x in r.events if x.kind == "call" and x.callee == fn("builtins.getattr") and len(x.args) == 3
+                 and x.args[0] == cv and x.args[1] == C("start_with_window") and not x.kwargs]
     sww = attr(cv, "start_with_window")
     bad = None
     n = 0
@@ -1277,6 +1281,12 @@ def check_cv_validator(ctx, repo):
                         if d is not None:
                             val[sww] = d
                             val[call(fn("builtins.getattr"), [cv, C("start_with_window")])] = d
+                        # getattr(cv, "start_with_window", default): the attribute's value when present, else the default
+                        for g_ in getattrs3:
+                            dflt = g_.a[1][2]
+                            if not is_const(dflt):
+                                raise Undef(g_)
+                            val[g_] = d if c else cval(dflt)
                         n += 1
                         rets = [t for st, t in r.returns if pc_holds(st.pc, val)]
                         rais = [t for st, t in r.raises if pc_holds(st.pc, val)]
